@@ -112,6 +112,9 @@ func shrinkAndConfirm(c *Ctx, p *plan.Plan, v Violation) (*plan.Plan, bool) {
 		// 1. drop whole ops, last to first
 		for ii := len(cur.Incs) - 1; ii >= 0 && time.Now().Before(deadline); ii-- {
 			for oi := len(cur.Incs[ii].Ops) - 1; oi >= 0 && time.Now().Before(deadline); oi-- {
+				if c.Check.Pinned != nil && c.Check.Pinned(&cur.Incs[ii].Ops[oi]) {
+					continue
+				}
 				q := cur.Clone()
 				q.Incs[ii].Ops = append(q.Incs[ii].Ops[:oi:oi], q.Incs[ii].Ops[oi+1:]...)
 				if fails(q) {
